@@ -161,7 +161,17 @@ func TestC14FaultEnumeration(t *testing.T) {
 			}
 		}
 		batch := drawBatch(t, "batch.", cfg, 1, 6)
-		desc := func() any { return map[string]any{"history": hist, "batch": briefBatch(batch)} }
+		// what the failing call reports: a generic error, lock contention, an I/O error, a full disk, a deadline
+		errKind := rapid.SampledFrom([]string{"generic", "generic", "busy", "busy", "locked", "ioerr", "full", "timeout"}).Draw(t, "fault_error")
+		theFaultCtl.mu.Lock()
+		theFaultCtl.err = faultErrors[errKind]
+		theFaultCtl.mu.Unlock()
+		defer func() {
+			theFaultCtl.mu.Lock()
+			theFaultCtl.err = nil
+			theFaultCtl.mu.Unlock()
+		}()
+		desc := func() any { return map[string]any{"history": hist, "batch": briefBatch(batch), "fault_error": errKind} }
 		bat := makeBattery(world, batch)
 		before, _, err := snapshot(db, seed, bat)
 		if err != nil {
